@@ -29,7 +29,45 @@ AUTHORS = ['Dan Davison', 'Ann', 'Jörg Müller', '山田 太郎', 'x y z w', 'T
 def plan(ctx):
     items = [('model', engine.stable_hash((ctx.seed, 'c17', i))) for i in range(ctx.n(6000, 100000))]
     items += [('real', engine.stable_hash((ctx.seed, 'c17r', i))) for i in range(ctx.n(300, 4000))]
+    # lines of one commit made a moment ago (the uncommitted changes, say) that arrive slowly, with delta's default relative
+    # times: the same attribution whatever the clock says in between (12 s per case, they run beside the others)
+    items += [('slow', i) for i in range(ctx.n(2, 12))]
     return items
+
+
+def run_slow(idx):
+    import subprocess
+    import time
+    stamp = time.strftime('%Y-%m-%d %H:%M:%S +0000', time.gmtime(time.time() - [0, 3, 50, 3590][idx % 4]))
+    lines = ['abcdef12 (Ann Lee %s %d) line %d of the new code' % (stamp, i + 1, i + 1) for i in range(3)]
+    args = ['--paging', 'never', '--no-gitconfig', '--syntax-theme', 'none', '--blame-palette', '#101010 #202020 #303030']
+    sets = {'patterns': ['slow-recent-commit'], 'delivery': ['paced: 11.5 s between the first and the second line'], 'formats': ['default (relative time)']}
+    proc = subprocess.Popen([runner.binary('hooks')] + args, stdin=subprocess.PIPE, stdout=subprocess.PIPE, stderr=subprocess.PIPE,
+                            env=runner.base_env(None), cwd=os.path.join(runner.workdir(), 'cwd'))
+    try:
+        proc.stdin.write((lines[0] + '\n').encode())
+        proc.stdin.flush()
+        time.sleep(11.5)
+        proc.stdin.write(('\n'.join(lines[1:]) + '\n').encode())
+        proc.stdin.close()
+        proc.stdin = None
+        out, err = proc.communicate(timeout=30)
+    except Exception as e:
+        proc.kill()
+        return inconclusive('paced run failed: %r' % e, sets=sets)
+    if proc.returncode != 0:
+        return inconclusive('exit %s: %s' % (proc.returncode, err[:100]), sets=sets)
+    rws = [r for r in term.decode(out.decode('utf-8', 'replace')) if r.text().strip()]
+    if len(rws) != 3:
+        return violated('c17:slow:rows', 'three blame lines of one commit gave %d rows' % len(rws), 3, len(rws), sets=sets)
+    metas = [r.text().split('\u2502')[0] for r in rws]
+    cols = [r.cells[0].bg if r.cells else None for r in rws]
+    if any(m.strip() for m in metas[1:]):
+        return violated('c17:slow:metadata-not-blanked', 'lines of one commit that arrived 11.5 s apart: the metadata is repeated (the relative time had changed)',
+                        [metas[0], '', ''], metas, sets=sets, extra={'input': lines})
+    if len(set(cols)) != 1:
+        return violated('c17:slow:colour-changes', 'lines of one commit that arrived 11.5 s apart have different colours', cols[0], cols, sets=sets, extra={'input': lines})
+    return held(sig=('slow', idx % 4), nontrivial=True, counters={'rows_compared': 3, 'slow_cases': 1}, sets=sets)
 
 
 def gen_model(rng):
@@ -83,6 +121,8 @@ def gen_model(rng):
 
 def run_item(item):
     kind, seed = item
+    if kind == 'slow':
+        return run_slow(seed)
     rng = engine.item_rng(seed)
     if kind == 'real':
         repo = gitrepo.Repo(rng)
@@ -125,11 +165,13 @@ def run_item(item):
                 l_['code'] = (l_['code'].replace('\t', ' ') + ' ' + 'w0rd ' * 80)[:rng.choice([6, 30, 60, 150, 300])]
         text = corpus.blame_text(model)
     palette = rng.choice(PALETTES)
-    fmt_cls = rng.choice(['commit-author-time', 'time-commit', 'commit-only', 'author-commit', 'author-prec14', 'author-prec5'])
+    fmt_cls = rng.choice(['commit-author-time', 'time-commit', 'commit-only', 'author-commit', 'author-prec14', 'author-prec5', 'prec-no-width'])
     fmt = {'commit-author-time': '{commit:<8}¦{author:<14}¦{timestamp:<16}', 'time-commit': '{timestamp:<16}¦{commit:<9}',
            'commit-only': '{commit:<8}', 'author-commit': '{author:>16}¦{commit:<8}',
            # a precision is a maximal number of characters (delta's own default format has one: {author:<15.14})
-           'author-prec14': '{commit:<8}¦{author:<15.14}¦{timestamp:<16}', 'author-prec5': '{author:<10.5}¦{commit:<8}'}[fmt_cls]
+           'author-prec14': '{commit:<8}¦{author:<15.14}¦{timestamp:<16}', 'author-prec5': '{author:<10.5}¦{commit:<8}',
+           # (a precision without a width, with and without an alignment character)
+           'prec-no-width': '{author:.6}¦{commit:<.8}¦{timestamp}'}[fmt_cls]
     sepcls = rng.choice(['every', 'every', 'block', 'none', 'every-2', 'every-3', 'every-5'])
     sepfmt = {'every': '‖{n:^5}‖', 'block': '‖{n:^5_block}‖', 'none': 'none', 'every-2': '‖{n:^5_every-2}‖', 'every-3': '‖{n:>5_every-3}‖',
               'every-5': '‖{n:^5_every-5}‖'}[sepcls]
@@ -230,7 +272,8 @@ def run_item(item):
             fields = [f.strip() for f in meta.split('¦')]
             want = {'commit-author-time': [shown_hash, cm['author'], tstr], 'time-commit': [tstr, shown_hash],
                     'commit-only': [shown_hash], 'author-commit': [cm['author'], shown_hash],
-                    'author-prec14': [shown_hash, cm['author'][:14].strip(), tstr], 'author-prec5': [cm['author'][:5].strip(), shown_hash]}[fmt_cls]
+                    'author-prec14': [shown_hash, cm['author'][:14].strip(), tstr], 'author-prec5': [cm['author'][:5].strip(), shown_hash],
+                    'prec-no-width': [cm['author'][:6].strip(), shown_hash[:8], tstr]}[fmt_cls]
             if kind == 'real':
                 want = [w for w in want]
             if fields != want:
